@@ -280,11 +280,12 @@ fn cfg_of(arr: &[u8; DATA_MAX]) -> (u8, u32, u32, usize) {
         0x08 => (u32::from(arr[7]), u32::from(arr[5])),
         _ => (0, 0),
     };
+    // the recorded type: the supported type with this family and id, provided the size fields agree with it
     let mut ty = 11;
     let mut i = 0;
     while i < 11 {
         let b = TYPES[i].to_bytes();
-        if b[0] == arr[0] && b[1] == arr[1] {
+        if b[0] == arr[0] && b[1] == arr[1] && TYPES[i].dimensions() == (w, h) {
             ty = i;
         }
         i += 1;
@@ -349,6 +350,16 @@ fn c13_step(pend: &[u8]) {
     kani::cover!(matches!(m, Message::RequestOperation(..)) && r.is_none() && before.address == 7, "cov_illegal_op_silent");
     kani::cover!(matches!(m, Message::Goodbye(_)) && before.state == PIX_PROG && after.state == UNCONF, "cov_goodbye_resets");
     core::mem::forget(r);
+}
+
+/// the documented sizes used by the specification agree with SignType::dimensions() (all 11 types)
+#[kani::proof]
+#[kani::unwind(14)]
+fn c13_spec_type_sizes_agree() {
+    let i: usize = kani::any();
+    kani::assume(i < 11);
+    assert!(TYPES[i].dimensions() == TYPE_DIMS[i]);
+    kani::cover!(i == 10, "cov_last");
 }
 
 /// C13: the initial state satisfies the invariant.
